@@ -5,6 +5,7 @@ the depth counter.
 -/
 import TeraModel.Props.C02
 import TeraModel.Lemmas.AstHeight
+import TeraModel.Lemmas.AstCounted
 import TeraModel.Lemmas.TemplateParserTotal
 namespace Tera.TParser
 open Tera Tera.Parser Tera.Spec
@@ -50,6 +51,11 @@ theorem plusChain_measures (n : Nat) :
       opTok]
     omega
 
+theorem plusChain_cd (n : Nat) : (plusChain n).erase.cd ≤ 2 := by
+  induction n with
+  | zero => simp [plusChain, S.erase, Expr.cd]
+  | succ n ih => simp only [plusChain, S.erase, Expr.cd]; omega
+
 /-- in-tag tokens: what a surface expression consists of -/
 def InTag (t : Tok) : Prop :=
   t ≠ .error ∧ (∀ c, t ≠ .content c) ∧ (∀ w, t ≠ .variableStart w) ∧ (∀ w, t ≠ .tagStart w)
@@ -82,7 +88,8 @@ and its AST has height n + 2: the loop of `parse_expr_bp` builds the left spine 
 through `inner_parse_expression`. -/
 theorem plus_chain_accepted (n : Nat) :
     ∃ toks t st, toks.length = 2 * n + 3 ∧ shaped .tpl toks = true
-      ∧ parse Gen.MAX_RECURSION_DEPTH toks = .ok t st ∧ n + 2 ≤ Node.heightList t.nodes := by
+      ∧ parse Gen.MAX_RECURSION_DEPTH toks = .ok t st ∧ n + 2 ≤ Node.heightList t.nodes
+      ∧ Node.cdList t.nodes ≤ 2 := by
   obtain ⟨hneed, hb, ha, hh, hlen⟩ := plusChain_measures n
   have hp := C02.C02_parse_print_any_table docLevels (genCfg false) C02.bp_table_matches_doc.1
     (plusChain n) (plusChain_docwp n).1 Gen.MAX_RECURSION_DEPTH 1
@@ -92,11 +99,13 @@ theorem plus_chain_accepted (n : Nat) :
   have hps := parse_single_expr 39 false false _ _ hp
   change parse Gen.MAX_RECURSION_DEPTH _ = _ at hps
   refine ⟨.variableStart false :: ((plusChain n).toks ++ [.variableEnd false]), _, _, ?_, ?_,
-    hps, ?_⟩
+    hps, ?_, ?_⟩
   · simp [hlen]
   · simp only [shaped, beq_self_eq_true, Bool.true_and]
     exact shaped_intag_append .var (by decide) _ _ (plusChain_intag n) (by simp [shaped])
   · simp [Node.heightList, Node.height, hh]; omega
+  · have := plusChain_cd n
+    simp only [Node.cdList, Node.cd]; omega
 
 /-! ### the `elif` chain -/
 
@@ -132,6 +141,11 @@ theorem afterCond_length (n : Nat) : (afterCond n).length = 4 * n + 4 := by
   induction n with
   | zero => rfl
   | succ n ih => simp [afterCond, ih]; omega
+
+theorem elifNest_cd (n : Nat) : Node.cdElse (elifNest n) ≤ 2 := by
+  induction n with
+  | zero => simp [elifNest, Node.cdElse, Node.cdList]
+  | succ n ih => simp only [elifNest, Node.cdElse, Expr.cd, Node.cdList]; omega
 
 theorem elifNest_height (n : Nat) : n ≤ Node.heightList (elifNest n) := by
   induction n with
@@ -195,13 +209,17 @@ theorem elifToks_shaped (n : Nat) : shaped .tpl (elifToks n) = true := by
 /-- F1, second family: `n` `elif`s are accepted at the default limit, the tree is `n + 1` high -/
 theorem elif_chain_accepted (n : Nat) :
     ∃ toks t st, toks.length = 4 * n + 7 ∧ shaped .tpl toks = true
-      ∧ parse Gen.MAX_RECURSION_DEPTH toks = .ok t st ∧ n + 1 ≤ Node.heightList t.nodes := by
+      ∧ parse Gen.MAX_RECURSION_DEPTH toks = .ok t st ∧ n + 1 ≤ Node.heightList t.nodes
+      ∧ Node.cdList t.nodes ≤ 2 := by
   have hp := elif_chain_parse 38 n
   change parse Gen.MAX_RECURSION_DEPTH _ = _ at hp
-  refine ⟨elifToks n, _, _, ?_, elifToks_shaped n, hp, ?_⟩
+  refine ⟨elifToks n, _, _, ?_, elifToks_shaped n, hp, ?_, ?_⟩
   · simp [elifToks, afterCond_length]
   · have := elifNest_height n
     simp only [Node.heightList, Node.height, Expr.height]
+    omega
+  · have := elifNest_cd n
+    simp only [Node.cdList, Node.cd, Expr.cd]
     omega
 
 end Tera.TParser
